@@ -103,11 +103,42 @@ pub fn run(arg: &str) -> String {
             // identity representatives inside the circuit: P - P' where P' is the same element held as a different variable
             let e = elem(parts[1], "0"); let e2 = elem(parts[1], parts[2]);
             let p = ElementVar::new_witness(cs.clone(), || Ok(e)).unwrap();
-            let q = ElementVar::new_witness(cs.clone(), || Ok(e2)).unwrap();
+            // a constant keeps the inner curve point as given (any coset representative); a witness is re-derived from its encoding
+            let q = ElementVar::new_constant(cs.clone(), e2).unwrap();
             let d = p - q;
             let z = d.is_zero().unwrap().value().unwrap();
             let z2 = d.is_eq(&ElementVar::zero()).unwrap().value().unwrap();
             format!("sat={} is_zero={} eq_zero={} native={}", cs.is_satisfied().unwrap(), z, z2, (e - e2).is_identity())
+        }
+        "nonuniq" => {
+            // adversarial bit decomposition: synthesise decode(s) honestly, then replace the 253 witnessed bits of s by the bits
+            // of s + q (another representative of the same residue) and ask whether the constraints are satisfied
+            let s = fq(parts[1]);
+            let s_var = FqVar::new_witness(cs.clone(), || Ok(s)).unwrap();
+            let r = ElementVar::decompress_from_field(s_var);
+            let honest = r.is_ok() && cs.is_satisfied().unwrap();
+            let sv = num_bigint::BigUint::from_bytes_le(&s.to_bytes_le());
+            let qv = num_bigint::BigUint::from_bytes_le(&hex::decode("01000000000080110a010000d0fe76aa5901b0375c1e4db46056a52c9a5e65ab12").unwrap_or(vec![]));
+            let q: num_bigint::BigUint = Fq::MODULUS.into();
+            let alt = &sv + &q;
+            if alt.bits() > 253 { return format!("honest={} attack=not-applicable", honest); }
+            let bits_of = |v: &num_bigint::BigUint| -> Vec<bool> { (0..253).map(|i| v.bit(i as u64)).collect() };
+            let (sb, ab) = (bits_of(&sv), bits_of(&alt));
+            let mut found = false;
+            {
+                let mut csm = cs.borrow_mut().unwrap();
+                let w = &mut csm.witness_assignment;
+                let n = w.len();
+                let mut i = 0;
+                while i + 253 <= n {
+                    if (0..253).all(|j| w[i + j] == if sb[j] { Fq::ONE } else { Fq::ZERO }) {
+                        for j in 0..253 { w[i + j] = if ab[j] { Fq::ONE } else { Fq::ZERO }; }
+                        found = true; i += 253;
+                    } else { i += 1; }
+                }
+            }
+            let sat = found && cs.is_satisfied().unwrap();
+            format!("honest={} attack={}", honest, if sat { "satisfied" } else { "rejected" })
         }
         #[cfg(decaf377_verif)]
         "alloc" => {
